@@ -168,19 +168,33 @@ func layerKeySets(c *report.Ctx) map[string]map[string]bool {
 		})
 	}
 	c.Check("R-WHO", envT+"/constant-keys-only", "entries are put into the layers only under constant names (no caller-chosen key can land in a reserved layer)", len(dynamic) == 0 && nstores >= 8, token.NoPos, nstores, "%d stores; non-constant keys: %v", nstores, dynamic)
-	// lookupEnv copies only keys of its table
-	if le := fn(c, "L/rapidcore/env", "lookupEnv"); le != nil {
-		ok := false
-		an.AllInstrs(le, func(in ssa.Instruction) {
-			if mu, k := in.(*ssa.MapUpdate); k {
+	// the copy from the process environment takes only keys of its table (wherever in the package it is written)
+	{
+		n, ok := 0, true
+		pos := token.NoPos
+		for _, le := range repoFuncs(c) {
+			if !strings.HasPrefix(an.FuncName(le), "L/rapidcore/env.") || len(an.CallsTo(le, "os.LookupEnv")) == 0 {
+				continue
+			}
+			an.AllInstrs(le, func(in ssa.Instruction) {
+				mu, k := in.(*ssa.MapUpdate)
+				if !k || !an.IsResultOf(mu.Value, "os.LookupEnv", 0) {
+					return
+				}
+				n++
+				good := false
 				if ex, k2 := mu.Key.(*ssa.Extract); k2 {
 					if _, isNext := ex.Tuple.(*ssa.Next); isNext && ex.Index == 1 {
-						ok = true
+						good = true
 					}
 				}
-			}
-		})
-		c.Check("R-SHAPE", an.FuncName(le)+"/keys-from-table", "a layer initialised from the process environment can only hold the names of its table", ok, fpos(le), 1, "%v", ok)
+				if !good {
+					ok = false
+					pos = an.InstrPos(in)
+				}
+			})
+		}
+		c.Check("R-SHAPE", "L/rapidcore/env.lookupEnv/keys-from-table", "a layer initialised from the process environment can only hold the names of its table", ok && n >= 1, pos, n, "copies: %d, keyed by the table's own key: %v", n, ok)
 	}
 	reserved := []string{"platformUnreserved", "credentials", "runtime", "platform"}
 	var inter []string
